@@ -3421,8 +3421,11 @@ class DenseIntOrFPElementsAttr(
         Return whether or not this dense attribute is defined entirely
         by a single value (splat).
         """
-        values = self.get_values()
-        return values.count(values[0]) == len(values)
+        # Compare the raw element buffers: `0.0 == -0.0` and `nan != nan` make value
+        # comparison unsuitable for deciding whether all elements are identical.
+        data = self.data.data
+        size = self.type.element_type.compile_time_size
+        return data == data[:size] * (len(data) // size)
 
     @staticmethod
     def parse_with_type(parser: AttrParser, type: Attribute) -> TypedAttribute:
